@@ -17,7 +17,7 @@ from ..core import Violation
 ZONES = ["UTC", "America/Los_Angeles", "Australia/Lord_Howe", "Asia/Kathmandu"]
 REPLAY_BY_RERUN = True  # workloads are deterministic in (tier, seed, shard): replay re-runs the shard
 SHARDS = {"quick": 8, "thorough": 16}
-TIMEOUT = {"quick": 900, "thorough": 3600}
+TIMEOUT = {"quick": 1800, "thorough": 7200}
 BATCHES = {"quick": 400, "thorough": 6000}  # per shard
 
 IANA = ["UTC", "America/Los_Angeles", "Australia/Lord_Howe", "Asia/Kathmandu", "Europe/London", "Asia/Tokyo"]
